@@ -130,7 +130,8 @@ Qed.
 
 (* ---- the conservation invariant ---- *)
 Definition live (s : cstream) : bool := negb (cs_forgotten s) && negb (cs_peer_reset s).
-Definition open_rx (s : cstream) : bool := live s && negb (cs_app_closed s) && negb (cs_peer_ended s).
+Definition open_rx (s : cstream) : bool :=
+  live s && negb (cs_app_closed s) && negb (cs_peer_ended s) && negb (cs_read_failed s).
 Definition unsent_ok (f : inflow) : Prop :=
   in_unsent f = 0 \/ (in_unsent f < inflowMinRefresh /\ in_unsent f < in_avail f).
 
@@ -515,14 +516,14 @@ Lemma rc_app_read : forall I c x sid n eof, RC I c x -> rc_ok I c x (EAppRead si
 Proof.
   intros I c x sid n eof H. unfold rc_ok. cbn [conn_step].
   destruct (find_cs sid (cc_streams c)) as [s|] eqn:Ef; [|exact H].
-  destruct ((1 <=? n) && (n <=? cs_buf s) && negb (cs_app_closed s) && (negb eof || cs_peer_ended s || cs_peer_reset s)) eqn:G;
+  destruct ((1 <=? n) && (n <=? cs_buf s) && negb (cs_app_closed s) && negb (cs_read_failed s)) eqn:G;
     [|exact H].
   pose proof H as H0. dRC H0. destruct x as [[cw ciw] l]. cbn [fst snd] in *.
   destruct (F2C_found _ _ _ _ _ Cst Ef) as (p & HS & Hid & _).
   pose proof HS as (S1 & S2 & S3 & S4 & S5 & S6 & S7 & S8 & S9).
   pose proof (tb_ge_found _ _ _ _ _ Cst Ef) as Hge.
   assert (Hn : 1 <= n <= cs_buf s) by lia.
-  assert (Hac : cs_app_closed s = false) by (destruct (cs_app_closed s); [rewrite andb_false_r in G; discriminate|reflexivity]).
+  assert (Hac : cs_app_closed s = false) by (destruct (cs_app_closed s); [rewrite ?andb_false_r in G; simpl in G; rewrite ?andb_false_r in G; discriminate|reflexivity]).
   destruct (in_add_ret (cc_in c) n) as [rc f2] eqn:Ea.
   apply (in_add_ret_spec _ _ _ _ Ca0 Cu0) in Ea; try lia. destruct Ea as (A1 & A2 & A3 & A4 & A5).
   assert (Hs : exists rs g2, (if eof then (0, cs_in s) else in_add_ret (cs_in s) n) = (rs, g2) /\
@@ -539,23 +540,24 @@ Proof.
   rewrite <- (app_nil_r (wu sid rs)). rewrite rx_fold_wu by lia.
   replace (sid =? 0) with false by lia. cbn [fold_left].
   unfold RC. cbn [fst snd set_cstreams set_cin cc_stream_in cc_in cc_streams cc_next_id].
-  rewrite (tb_upd_found _ _ _ _ _ Cdesc Ef). cbn [cs_set_recv cs_buf].
+  rewrite (tb_upd_found _ _ _ _ _ Cdesc Ef).
+  set (s' := if eof then cs_set_read_failed (cs_set_recv s g2 (cs_buf s - n)) else cs_set_recv s g2 (cs_buf s - n)).
+  assert (F : cs_id s' = cs_id s /\ cs_buf s' = cs_buf s - n /\ cs_in s' = g2 /\ cs_app_closed s' = cs_app_closed s /\
+              live s' = live s /\ (open_rx s' = true -> open_rx s = true /\ eof = false)).
+  { unfold s'. destruct eof; unfold open_rx, live; cbn; repeat split; auto;
+      intros; rewrite ?andb_false_r in *; try discriminate; auto. }
+  destruct F as (F1 & F2 & F3 & F4 & F5 & F6).
+  fold s'. rewrite F2.
   repeat split; auto; try lia.
   - rewrite rx_upd_map. eapply F2C_upd_found; eauto.
-    intros q (Q1 & Q2 & Q3 & Q4 & Q5 & Q6 & Q7 & Q8 & Q9).
-    unfold SRC. cbn [cs_set_recv cs_id cs_buf cs_app_closed cs_in fst snd].
-    assert (Hlive : live (cs_set_recv s g2 (cs_buf s - n)) = live s) by reflexivity.
-    assert (Hopen : open_rx (cs_set_recv s g2 (cs_buf s - n)) = open_rx s) by reflexivity.
-    rewrite Hlive, Hopen.
-    assert (Heof : open_rx s = true -> eof = false).
-    { intros Ho. unfold open_rx, live in Ho. destruct eof; [|reflexivity].
-      destruct (cs_peer_ended s), (cs_peer_reset s); simpl in *; rewrite ?andb_false_r in *; try discriminate. }
+    intros q (Q1 & Q2 & Q3 & Q4 & Q5 & Q6 & Q7 & Q8 & Q9). fold s'.
+    unfold SRC. rewrite F1, F2, F3, F4, F5. cbn [fst snd].
     repeat split; auto; try lia;
       try (rewrite Hac; intros; discriminate);
       try (intros Hl; rewrite (Q8 Hl); lia);
-      try (intros Ho; destruct (B5 (Heof Ho)); destruct (Q9 Ho); (lia || assumption));
-      try (match goal with Ho : open_rx s = true |- _ => destruct (B5 (Heof Ho)); destruct (Q9 Ho); (lia || assumption) end).
-  - apply desc_upd; auto.
+      try (match goal with Ho : open_rx s' = true |- _ =>
+             destruct (F6 Ho) as [Ho' He]; destruct (B5 He); destruct (Q9 Ho'); (lia || assumption) end).
+  - apply desc_upd; auto. intros s0. destruct eof; reflexivity.
 Qed.
 
 Lemma SRC_dead : forall W s p v, SRC W s p -> live s = false -> SRC W s (fst p, v).
